@@ -145,6 +145,9 @@ func New(o Options) (*Env, error) {
 	}
 	cfg := config.DefaultConfig
 	cfg.RootDir = e.Root
+	// a non-default db_path: whatever the manager keeps on disk itself (the cache files under <root>/data) must not
+	// depend on it unless saving and loading agree (seed C07-H saved under db_path and loaded from "data")
+	cfg.DBPath = "db-alt"
 	cfg.Node.Aggregator = o.Aggregator
 	cfg.Node.MaxPendingHeadersAndData = o.MaxPending
 	cfg.Node.LazyMode = o.Lazy
